@@ -300,6 +300,11 @@ impl LogState {
                                     logs::meta(g.kind(), &relname, Some(g.pid()));
                                 } else if !self.already.contains(&fixname) {
                                     logs::meta("do", &relname, Some(g.pid()));
+                                    // A header was printed: what this target
+                                    // prints next needs a "resumed" line even
+                                    // if the unchanged target's log is empty.
+                                    interrupted += 1;
+                                    lines_written += 1;
                                 }
                                 if matches.is_present("recursive") {
                                     if let Some((_, loglock, _)) = info.as_mut() {
